@@ -188,6 +188,8 @@ def run(ctx):
     for spec in PRIMS:
         check_noiseless_limit(ctx, repo.func(spec['rel'], spec['q']), spec)
     check_mst_candidates(ctx)
+    for spec in PRIMS:
+        check_tie_fast_path(ctx, repo.func(spec['rel'], spec['q']), spec)
 
 
 # positional parameters of the selection / noise primitives as callers know them: (name, default or None)
@@ -238,6 +240,29 @@ def check_signatures(ctx):
                '%s: positional callers bind (%s); %s' % (q, ', '.join(p for p, _ in want), '; '.join(bad) or 'positions and defaults kept'),
                construct='signature of ' + q)
     ctx.counters['signatures'] = n
+
+
+def check_tie_fast_path(ctx, fi, spec):
+    """`if not q.any(): p = uniform` - all (shifted) qualities are zero, the softmax of zeros is the uniform distribution.  That is the mechanism's
+    own answer only when nothing else enters the exponent: with a base measure the distribution at a tie is proportional to the BASE MEASURE, so
+    the shortcut must be taken only when there is none (`base_measure is None and not q.any()`)."""
+    has_base = 'base_measure' in fi.params
+    for n in ast.walk(fi.node):
+        if not isinstance(n, ast.If):
+            continue
+        parts = n.test.values if isinstance(n.test, ast.BoolOp) and isinstance(n.test.op, ast.And) else [n.test]
+        pt = [U(x).replace(' ', '') for x in parts]
+        ties = [x for x in pt if re.fullmatch(r'not\w+\.any\(\)|notnp\.any\(\w+\)|\(\w+==0\)\.all\(\)|np\.all\(\w+==0\)', x)]
+        if not ties:
+            continue
+        uniform = any(isinstance(a, ast.Assign) and re.fullmatch(r'np\.full\((\w+)\.size,1(\.0)?/\1\.size\)|np\.ones\((\w+)\.size\)/\3\.size', U(a.value).replace(' ', ''))
+                      for a in n.body)
+        if not uniform:
+            raise AnalysisError('%s: a branch for tied qualities (`%s`) that does not bind the uniform distribution' % (fi.qualname, U(n.test)[:60]))
+        guarded = (not has_base) or any(x in ('base_measureisNone', 'base_measure==None') for x in pt)
+        ctx.ob('proportional', fi, n, guarded, 'tied qualities answered by the uniform distribution: the mechanism\'s own answer at a tie is proportional to the base measure, '
+               'so the shortcut needs `base_measure is None` as well; the test is `%s`%s' % (U(n.test)[:70], '' if guarded else
+               ' - with a base measure a candidate of weight 0 now gets probability 1/n'), construct='tie shortcut of ' + fi.name)
 
 
 def check_mst_candidates(ctx):
